@@ -14,9 +14,9 @@ import (
 	"time"
 
 	"github.com/whoisnian/glb/logger"
-	"github.com/whoisnian/glb/zzverif/vsched"
-	"github.com/whoisnian/glb/zzverif/vtime"
 	"verif/engine/sdrive"
+	"verif/engine/shim/vsched"
+	"verif/engine/shim/vtime"
 )
 
 type sink struct {
